@@ -358,6 +358,11 @@ def Circ.mul (a : Circ) (k : Nat) : Circ :=
   (List.range k).foldl (fun acc _ => (acc.appendCircuit a (List.range a.numQudits)).1)
     (Circ.empty a.radixes)
 
+/-- `c *= k`: keeps the circuit and appends `k - 1` copies of the original; `k = 0` empties it -/
+def Circ.imul (a : Circ) (k : Nat) : Circ :=
+  if k == 0 then Circ.empty a.radixes else
+  (List.range (k - 1)).foldl (fun acc _ => (acc.appendCircuit a (List.range a.numQudits)).1) a
+
 /-! ## derived views (C05) -/
 def Circ.point (o : Op) (k : Nat) : Nat × Nat := (k, o.head)
 
